@@ -19,7 +19,7 @@ from ..index import AnalysisError
 from .. import astq
 from ._c09_prov import (Prov, Chain, NONE, alts, const, is_const, seq_shape, strip_views, interface_positions,
                         bind_interface, is_clone_of, none_valued, note_base_attrs, mentions, forwarded, analysed,
-                        check_first_call_only, borrow)
+                        check_first_call_only, borrow, element_view, as_position)
 
 PIPE = "sktime/forecasting/compose/_pipeline.py"
 ENS = "sktime/forecasting/compose/_ensemble.py"
@@ -275,7 +275,7 @@ def r1_fit(ctx, repo, cls):
                               % res.fmt(v[1][1]), loc_of(s))
             elif v[1][1] != est.recv:
                 ctx.undecided("R1", key, "steps_[i] receives %s" % res.fmt(v[1][1]), loc_of(s))
-            elif s.index != tl.index or tl.rev or const(tl.sl[1] if tl.sl else NONE, 0) not in (None, 0):
+            elif as_position(res, s.index) != tl.index or tl.rev or const(tl.sl[1] if tl.sl else NONE, 0) not in (None, 0):
                 if is_const(s.index) or (isinstance(s.index, tuple) and s.index[0] == "idx") or \
                         (isinstance(s.index, tuple) and s.index[0] == "binop" and tl.index in s.index[2:] and any(is_const(x) and x[1] for x in s.index[2:])):
                     ctx.violation("R1", key, "the fitted transformer is stored at position %s, not at its own position" % res.fmt(s.index), loc_of(s))
@@ -443,11 +443,15 @@ def r1_tag_helpers(ctx, repo):
     if len(ups) == 1 and [v for v, _ in ares.returns] == [ups[0].recv]:
         u = ups[0]
         L = ares.loops[ares.loops_of(u)[-1]]
-        base, rev, sl = seq_shape(L.iter)
-        be = ares.ret_event(base)
         a0 = u.args[0] if u.args else None
+        view = element_view(ares, a0[1]) if isinstance(a0, tuple) and len(a0) == 3 and a0[0] == "getattr" and a0[2] == "_tags" else None
+        base, rev, sl, be = None, False, None, None
+        if view is not None and view[2] == L.id:
+            base, rev, sl = seq_shape(view[0])
+            rev = rev != view[1]
+            be = ares.ret_event(base)
         if be is not None and be.target is not None and be.target.kind == "ext" and be.target.ext == "inspect.getmro" and be.args[:1] == (("self",),) \
-                and a0 == ("getattr", ("elem", L.iter, L.id), "_tags") and not ares.early_exits(L.id):
+                and sl == ("slice", NONE, ("const", -2), NONE) and not ares.early_exits(L.id):
             # dict.update: later updates win; getmro lists the most derived class first
             verdict = rev
             why = "the MRO is walked most-derived-first and every class overwrites the entries collected so far, so a parent's value overrides the subclass's"
@@ -502,7 +506,7 @@ def r1_update(ctx, repo, cls):
         elif res.loops_of(st_):
             tl_ = TLoop(res, res.loops[res.loops_of(st_)[-1]])
             if v[1][1] == tl_.transformer:
-                ctx.check(st_.index == tl_.index and not tl_.rev and const(tl_.sl[1] if tl_.sl else NONE, 0) in (None, 0), "R1", key + ":transformers",
+                ctx.check(as_position(res, st_.index) == tl_.index and not tl_.rev and const(tl_.sl[1] if tl_.sl else NONE, 0) in (None, 0), "R1", key + ":transformers",
                           "each transformer is put back at its own position", "a transformer is written to position %s, not to its own"
                           % res.fmt(st_.index), loc_of(st_))
     # transformer updates
@@ -709,6 +713,9 @@ def r2_predict(ctx, repo, cls):
         op = None
         if ae is not None and ae.target is not None and ae.target.kind == "attr" and ae.recv == ("ret", ce.id):
             op = ae.name
+        elif ae is not None and ae.target is not None and ae.target.kind == "value" and isinstance(ae.recv, tuple) and len(ae.recv) == 3 \
+                and ae.recv[0] == "getattr" and ae.recv[1] == ("ret", ce.id) and isinstance(ae.recv[2], str):
+            op = ae.recv[2]
         elif ae is not None and ae.target is not None and ae.target.kind == "value" and ae.recv == ("getattr_dyn", ("ret", ce.id), opt):
             op = "<option>"
             dynamic = True
@@ -764,8 +771,20 @@ def r2_predict(ctx, repo, cls):
     else:
         # the membership test must be passed before any aggregate is returned: every return carries the
         # negated membership condition as a fact that persists after the rejecting branch
-        pre = all(any(cond[0] == "cmp" and cond[2] == opt and cond[1] in ("In", "NotIn") and origin == "raise"
-                      for cond, pol, origin in res.facts(r) if isinstance(cond, tuple)) for r in rets)
+        def passed_check(r):
+            if any(cond[0] == "cmp" and cond[2] == opt and cond[1] in ("In", "NotIn") and origin == "raise"
+                   for cond, pol, origin in res.facts(r) if isinstance(cond, tuple)):
+                return True
+            # the test lives in a helper: the helper call dominates the return and inside it the raise hangs on that test alone
+            inl = [c for c in reject.ctx if c[0] == "inline"]
+            if inl:
+                call_ev = res.events[inl[-1][1]]
+                pos = max(i for i, c in enumerate(reject.ctx) if c[0] == "inline")
+                inside = [c for c in reject.ctx[pos + 1:] if c[0] != "inline"]
+                return len(inside) == 1 and inside[0][0] == "if" and res.dominates(call_ev, r) and res.unconditional(call_ev)
+            return False
+
+        pre = all(passed_check(r) for r in rets)
         ctx.check(pre, "R2", C + ":membership-check", "unknown `aggfunc` is rejected before any aggregate is computed",
                   "an aggregate can be returned without passing the membership test", loc_of(reject))
     for nm in AGGS:
